@@ -100,9 +100,11 @@ def shard_tables(sh, part):
     reps = 60 if sh.tier == 'quick' else 1500
     for t in range(reps):
         nf = rng.choice([1, 2, 3, 5, 12, 60])
-        label = rng.choice(['label', 'click', 'y'])
+        label = rng.choice(['label', 'click', 'y', 'is.click', 'lab+el', 'y(1)', 'a|b'])
         order = rng.choice([1, 1, 2, 3])
-        pool = ['f%d' % i for i in range(80)] + [label + '_rate', label + 's', label + '2', 'x' + label, 'a b', 'é', 'tr_sqrt', 'F1', 'f1_tr_log(x+1)']
+        pool = ['f%d' % i for i in range(80)] + [label + '_rate', label + 's', label + '2', 'x' + label, 'a b', 'é', 'tr_sqrt', 'F1', 'f1_tr_log(x+1)',
+                label.replace('.', '_').replace('+', '').replace('|', ''), label.replace('.', 'X'), 'a', 'b', 'lab', 'labbel', 'y1']
+        pool = list(dict.fromkeys(p_ for p_ in pool if p_ != label))
         names = rng.sample(pool, nf)
         if order > 1 and nf >= 3:
             inter = []
